@@ -3,11 +3,12 @@ replay files, evidence files, exit status (0 HOLD / 1 VIOLATION / 2 ANALYSIS-BRO
 import json
 import os
 import random
+import re
 import sys
 import time
 
 VERIF = os.path.dirname(os.path.dirname(os.path.abspath(__file__)))
-EVID = os.path.join(VERIF, 'evidence')
+EVID = os.environ.get('LSV_EVID') or os.path.join(VERIF, 'evidence')
 KNOWN = os.path.join(VERIF, 'known_findings.json')
 
 
@@ -17,13 +18,29 @@ def load_known():
     return json.load(open(KNOWN))
 
 
+_ID = re.compile(r'#0x[0-9a-f]+')
+
+
+def scrub(x):
+    """declaration ids (#0x...) make strings differ from run to run; they are dropped on output"""
+    if isinstance(x, str):
+        return _ID.sub('', x)
+    if isinstance(x, list):
+        return [scrub(v) for v in x]
+    if isinstance(x, tuple):
+        return tuple(scrub(v) for v in x)
+    if isinstance(x, dict):
+        return {scrub(k): scrub(v) for k, v in x.items()}
+    return x
+
+
 class Finding:
     """A refuted rule instance. `key` identifies it without line numbers:
     (rule, file, function, normalised construct)."""
 
     def __init__(self, rule, file, function, construct, where, message, witness=None, path=None):
-        self.rule, self.file, self.function, self.construct = rule, file, function, construct
-        self.where, self.message, self.witness, self.path = where, message, witness, path
+        self.rule, self.file, self.function, self.construct = rule, file, function, scrub(construct)
+        self.where, self.message, self.witness, self.path = where, scrub(message), scrub(witness), scrub(path)
 
     @property
     def key(self):
@@ -100,11 +117,8 @@ class Check:
             seen_known.add(f.key)
             lines.append('KNOWN-FINDING: property=%s %s [%s] %s' % (self.pid, f.where, f.rule, f.message))
         status = 0
-        if self.broken:
-            status = 2
-            for b in self.broken:
-                lines.append('ANALYSIS-BROKEN property=%s reason=%s' % (self.pid, b))
-        elif new:
+        if new:
+            # a refuted instance stands on its own witness even if another rule lost its anchor
             status = 1
             for i, f in enumerate(new):
                 p = os.path.join(EVID, 'replay', '%s-%d.json' % (self.pid, i))
@@ -112,6 +126,12 @@ class Check:
                 lines.append('%s: [%s] %s' % (f.where, f.rule, f.message) +
                              (' witness=%s' % json.dumps(f.witness) if f.witness else ''))
                 lines.append('VIOLATION property=%s replay=%s' % (self.pid, p))
+            for b in self.broken:
+                lines.append('ANALYSIS-PARTIAL property=%s reason=%s' % (self.pid, b))
+        elif self.broken:
+            status = 2
+            for b in self.broken:
+                lines.append('ANALYSIS-BROKEN property=%s reason=%s' % (self.pid, b))
         n_inst = sum(r['instances'] for r in self.rules.values())
         n_ok = sum(r['satisfied'] for r in self.rules.values())
         samples = []
@@ -137,7 +157,7 @@ class Check:
               'coverage': cov, 'assumptions': self.assumptions,
               'wall_s': round(time.time() - self.t0, 2), 'violations': len(new)}
         os.makedirs(EVID, exist_ok=True)
-        json.dump(ev, open(os.path.join(EVID, self.pid + '.json'), 'w'), indent=1)
+        json.dump(scrub(ev), open(os.path.join(EVID, self.pid + '.json'), 'w'), indent=1)
         for ln in lines:
             print(ln)
         print('%s %s: %d rule instances, %d satisfied, %d new finding(s), %d known, status=%s (%.1fs)' % (
